@@ -108,6 +108,14 @@ def gen_quota(rng):
     mx = rng.choice([1, 2, 2, 3])
     n = rng.choice([2, 2, 3, 4])
     pre = rng.choice([mx - 1, mx - 1, 0, mx])
+    if rng.random() < 0.25:
+        # marker hand-over among THREE requests of the client: A takes the marker, B's SetNX is lost, A finishes and releases,
+        # B moves again (the code: it already got a Conflict), C arrives; then everybody runs on in random order
+        n, mx = 3, rng.choice([2, 2, 3])
+        pre = rng.choice([mx - 2, mx - 2, mx - 1, 0])
+        tail = [rng.randrange(3) for _ in range(6)]
+        return {"mode": "quota", "kind": rng.choice(["code", "mapping"]), "max": mx, "pre": max(pre, 0), "threads": 3,
+                "sched": [0, 0, 1, 1, 0, 1, 2, 2, 1, 2] + tail}
     if rng.random() < 0.4:
         a = list(range(n))
         rng.shuffle(a)
